@@ -75,3 +75,12 @@ CASES += [
     {"name": "step written first in the inverse upper-half branch", "kind": "twin", "edits": [
         (DF, "                Y = numpy.fft.fftshift(numpy.fft.fft(yy))*t.step", "                Y = t.step*numpy.fft.fftshift(numpy.fft.fft(yy))", 1)]},
 ]
+
+CASES += [
+    {"name": "min of a descending axis answers with its last point (seeded change of round 6)", "kind": "mutant", "rule": "C13-D", "edits": [
+        ("quantarhei/core/valueaxis.py", "        \"\"\"Returns the minimum value on the axis\n\n        \"\"\"\n        return self.start",
+         "        \"\"\"Returns the minimum value on the axis\n\n        \"\"\"\n        if self.step < 0:\n            return self.data[self.length-1]\n        return self.start", 1)]},
+    {"name": "min answers with the first stored point", "kind": "twin", "edits": [
+        ("quantarhei/core/valueaxis.py", "        \"\"\"Returns the minimum value on the axis\n\n        \"\"\"\n        return self.start",
+         "        \"\"\"Returns the minimum value on the axis\n\n        \"\"\"\n        return self.data[0]", 1)]},
+]
